@@ -1937,6 +1937,9 @@ theorem delItem_step {b b' : BState} {a : Act} {o o' : Oracle} {k : Nat} (hd : D
         case drain hw' _ => exact absurd hw' hns.w
         case storePutPanic => exact Or.inl (Or.inr rfl)
         case updatePanic => exact Or.inl (Or.inr rfl)
+        case space0Overflow => exact Or.inl (Or.inr rfl)
+        case evSpaceOverflow => exact Or.inl (Or.inr rfl)
+        case emptyOverflow => exact Or.inl (Or.inr rfl)
         all_goals exact Or.inl (Or.inl (Or.inr (Or.inl ⟨hh, by simpa [finishCmd, rejectCmd, ttlPut, ttlDelete] using hd⟩)))
     · exact Or.inr ⟨rfl, hh, hd⟩
   | sweeper v _ hs =>
@@ -2417,6 +2420,9 @@ theorem itemQ_wtrans {b b' : BState} {k v hd : Nat} (hi : ItemQ k v hd b) (hH : 
   case drain cmd0 hh q hw' hq' => exact absurd hw' hns.w
   case storePutPanic => exact die rfl rfl rfl
   case updatePanic => exact die rfl rfl rfl
+  case space0Overflow => exact die rfl rfl rfl
+  case evSpaceOverflow => exact die rfl rfl rfl
+  case emptyOverflow => exact die rfl rfl rfl
   all_goals
     refine stay (by simp [finishCmd, rejectCmd, ttlPut, ttlDelete]) ?_
     first
@@ -2465,6 +2471,9 @@ theorem itemW_wtrans {b b' : BState} {k v hd : Nat} (hi : ItemW k v hd b) (hH : 
     exact fail (.rejected .noSpace) (by simp) rfl rfl (by simp [finishCmd, rejectCmd, hch])
   case storePutPanic => exact die rfl rfl rfl
   case updatePanic => exact die rfl rfl rfl
+  case space0Overflow => exact die rfl rfl rfl
+  case evSpaceOverflow => exact die rfl rfl rfl
+  case emptyOverflow => exact die rfl rfl rfl
   case storePutPlain c0 hw _ _ =>
     rw [hw] at hc; simp only [WPc.cmd?, Option.some.injEq] at hc; subst hc
     refine .stored { value := c0.v, id := c0.id, expiry := none, soft := false } rfl hq ?_ hcv rfl
